@@ -48,3 +48,23 @@ Print Assumptions C05_same.
 Print Assumptions C05_subtree_contiguous.
 Print Assumptions C05_prefix_is_subtree.
 Print Assumptions C05_order_is_lexicographic.
+
+(* "the same for the sync and async clients", at the Python layer: on every script of socket results without busy sockets and
+   timer expiries (those are C18's), each API call of the asyncio SnmpSession yields the items, the outcome (StopIteration
+   read as StopAsyncIteration), the unread rest and the policer consultations of the blocking SnmpSession.
+   [lift]: the asyncio client's view of the same exchanges (send_xxx returns, recv_xxx gives the result); Proofs/PySyncAsync.v *)
+From GS Require Import Model.Exc Model.PyLayer Proofs.PyLayerProofs Proofs.PySyncAsync.
+Theorem C05_sync_async_same :
+  forall (cfg : pycfg) (fuel : nat) (a : api) (s : list tok), forallb plain_tok s = true -> r_items (run_api (with_mode cfg Async) fuel a (lift s)) = r_items (run_api (with_mode cfg Sync) fuel a s) /\ r_end (run_api (with_mode cfg Async) fuel a (lift s)) = as_async (r_end (run_api (with_mode cfg Sync) fuel a s)) /\ r_rest (run_api (with_mode cfg Async) fuel a (lift s)) = lift (r_rest (run_api (with_mode cfg Sync) fuel a s)) /\ count_police (r_events (run_api (with_mode cfg Async) fuel a (lift s))) = count_police (r_events (run_api (with_mode cfg Sync) fuel a s)).
+Proof. exact sync_async_same. Qed.
+Check C05_sync_async_same :
+  forall (cfg : pycfg) (fuel : nat) (a : api) (s : list tok), forallb plain_tok s = true -> r_items (run_api (with_mode cfg Async) fuel a (lift s)) = r_items (run_api (with_mode cfg Sync) fuel a s) /\ r_end (run_api (with_mode cfg Async) fuel a (lift s)) = as_async (r_end (run_api (with_mode cfg Sync) fuel a s)) /\ r_rest (run_api (with_mode cfg Async) fuel a (lift s)) = lift (r_rest (run_api (with_mode cfg Sync) fuel a s)) /\ count_police (r_events (run_api (with_mode cfg Async) fuel a (lift s))) = count_police (r_events (run_api (with_mode cfg Sync) fuel a s)).
+Print Assumptions C05_sync_async_same.
+
+(* the same for programs: several iterators and calls interleaved on one session *)
+Theorem C05_program_sync_async_same :
+  forall (cfg : pycfg) (p : list cmd) (s : list tok), forallb plain_tok s = true -> snd (fst (run_prog (with_mode cfg Async) p [] (lift s) [] [])) = map as_async (snd (fst (run_prog (with_mode cfg Sync) p [] s [] []))) /\ snd (run_prog (with_mode cfg Async) p [] (lift s) [] []) = lift (snd (run_prog (with_mode cfg Sync) p [] s [] [])) /\ count_police (fst (fst (run_prog (with_mode cfg Async) p [] (lift s) [] []))) = count_police (fst (fst (run_prog (with_mode cfg Sync) p [] s [] []))).
+Proof. exact prog_sync_async_same_top. Qed.
+Check C05_program_sync_async_same :
+  forall (cfg : pycfg) (p : list cmd) (s : list tok), forallb plain_tok s = true -> snd (fst (run_prog (with_mode cfg Async) p [] (lift s) [] [])) = map as_async (snd (fst (run_prog (with_mode cfg Sync) p [] s [] []))) /\ snd (run_prog (with_mode cfg Async) p [] (lift s) [] []) = lift (snd (run_prog (with_mode cfg Sync) p [] s [] [])) /\ count_police (fst (fst (run_prog (with_mode cfg Async) p [] (lift s) [] []))) = count_police (fst (fst (run_prog (with_mode cfg Sync) p [] s [] []))).
+Print Assumptions C05_program_sync_async_same.
